@@ -83,6 +83,25 @@ impl Tag {
 /// *    400KiB: 1.228s
 pub(crate) const DEFAULT_STREAM_SIZE: usize = 4_096_000;
 
+thread_local! {
+    /// Number of times data moved on any stream, on this thread.
+    static ACTIVITY: std::cell::Cell<u64> = const { std::cell::Cell::new(0) };
+}
+
+/// Note that samples or packets were committed to, or consumed from, a stream.
+///
+/// The single threaded `Graph` uses this to tell if a pass over the blocks
+/// moved any data, regardless of what the blocks returned.
+pub(crate) fn note_activity() {
+    ACTIVITY.with(|a| a.set(a.get().wrapping_add(1)));
+}
+
+/// Current value of this thread's stream activity counter.
+#[must_use]
+pub(crate) fn activity() -> u64 {
+    ACTIVITY.with(|a| a.get())
+}
+
 /// Wait on a stream.
 ///
 /// For ReadStream, wait until there's enough to read.
@@ -344,6 +363,9 @@ impl<T> NCReadStream<T> {
         let (lock, cv) = &*self.q;
         // TODO: attach tags.
         let ret = lock.lock().unwrap().pop_front().map(|v| (v, Vec::new()));
+        if ret.is_some() {
+            note_activity();
+        }
         cv.notify_all();
         ret
     }
@@ -373,6 +395,7 @@ impl<T> NCWriteStream<T> {
         let (lock, cv) = &*self.q;
         // TODO: attach tags.
         lock.lock().unwrap().push_back(val);
+        note_activity();
         cv.notify_all();
     }
 }
